@@ -85,7 +85,7 @@ class Lab:
         return self.obj(uw)
 
     def gcm_fn(self, k):
-        key = (k, bool(self.table.get(k, {}).get("yield_from")))
+        key = (k, bool(self.table.get(k, {}).get("yield_from")), bool(self.table.get(k, {}).get("mk_raises")))
         if key not in self.gcm_fns:
             class Marker:
                 def __enter__(s):
@@ -95,6 +95,12 @@ class Lab:
                     return False
 
             mk = Marker()
+            if self.table.get(k, {}).get("mk_raises"):
+                # the manager inside the generator has a hook of its own that fails: an error is recorded while the generator's
+                # frame is being produced; it belongs to that frame's contexts and does not stop the unwrapping of the wrapper
+                @self.ss.elaborate_context.register(Marker)
+                def _mk_fails(mgr, ctx):
+                    raise Injected(8888)
             ns: Dict[str, Any] = {"MK": mk}
             # the generator's own (outermost) frame holds a manager: a hook that looks at frame.contexts — the natural way to
             # find what a wrapper wraps — must see it, exiting or not
@@ -182,7 +188,7 @@ class Lab:
             if ctx.description.startswith("desc"):
                 desc = ctx.description[4:]
             else:
-                owner = [k for k, _ in self.gcm_fns if f"gcm_{k}(" in ctx.description]
+                owner = [key[0] for key in self.gcm_fns if f"gcm_{key[0]}(" in ctx.description]
                 desc = str(owner[0]) if owner else "?"
         tr = self.trace
         if len(tr) > 24:
@@ -228,6 +234,7 @@ def rand_case(rng: random.Random) -> dict:
         else:
             d["el"] = {"inner": i, "desc": i, "gcm": True}
             d["yield_from"] = rng.random() < 0.5
+            d["mk_raises"] = rng.random() < 0.3
         mgrs.append(d)
     for j in range(n, n + 3):
         if rng.random() < 0.35:
